@@ -25,14 +25,14 @@ func Harness_C02_tripupdate() {
 	part := vr.Param("PART", 0)
 	opt, zone := hZone()
 	var desc hDesc
-	if part == 0 {
+	if part == 0 || part == 3 {
 		desc = hTripDescriptor("tu.trip", zone, vr.Param("KINDS", 2))
 	} else {
 		tid := vr.Str("tu.trip.trip_id")
 		desc = hDesc{d: &gtfsrt.TripDescriptor{TripId: &tid}, wantID: TripID{ID: tid}}
 	}
 	tu := &gtfsrt.TripUpdate{Trip: desc.d}
-	if part == 1 {
+	if part == 1 || part == 3 {
 		for i := 0; i < S; i++ {
 			tu.StopTimeUpdate = append(tu.StopTimeUpdate, hStopTimeUpdate(vr.T("tu.stu", i)))
 		}
@@ -40,7 +40,7 @@ func Harness_C02_tripupdate() {
 		S = 0
 	}
 	vkind := 1
-	if part == 2 {
+	if part == 2 || part == 3 {
 		vkind = vr.Int("tu.vehicle.kind", 0, vr.Param("VKINDS", 4))
 	}
 	vd, wantVID := hVehicleDescriptor("tu.vehicle", vkind)
